@@ -56,3 +56,17 @@ Theorem C07_is_converged_tests_every_element :
        (ltb small r && ltb (nth s atol (n0 N)) r && ltb (nmul N rtol (nabs (nth i yn1 (n0 N)))) r) = false).
 Proof. exact is_converged_tests_every_element. Qed.
 Print Assumptions C07_is_converged_tests_every_element.
+
+(* no new step is started once more than max_number_of_steps_ attempts have been made: wherever the trace of a Solve
+   shows the start of a step (EvStep: the top of the outer loop was passed, the forcing and the Jacobian are about
+   to be evaluated), at most max_number_of_steps_ attempts precede it - for every policy set and history *)
+Theorem C07_no_step_after_max_number_of_steps :
+  forall (N : Num) ltb leb nabs isnan isinf is_zero absorbed pow_inv ten delta_min
+         (V M F : Type) vaxpy vzero mzero add_diag forcing negjac in_place factor_sep solve_sep factor_ip solve_ip nerr
+         (p : params N) fuel time_step (s : rstate V M F) a t H b,
+    r_trace (ros_solve N ltb leb nabs isnan isinf is_zero absorbed pow_inv ten delta_min V M F vaxpy vzero mzero
+                       add_diag forcing negjac in_place factor_sep solve_sep factor_ip solve_ip nerr p fuel time_step s)
+      = a ++ EvStep t H :: b ->
+    length (filter (fun e => match e with EvAttempt _ _ _ _ _ _ => true | _ => false end) a) <= p_max_steps p.
+Proof. exact ros_attempts_before_every_step. Qed.
+Print Assumptions C07_no_step_after_max_number_of_steps.
